@@ -99,6 +99,7 @@ pub fn def(tier: Tier) -> PropertyDef {
                 .rates(&[("payload_gt_60000", 0.05)])
                 .boxed(),
             crate::props::binsubs::c02_sub(tier),
+            crate::props::binsubs::c02_sub_large(tier),
         ],
         workers: 16,
     }
